@@ -490,6 +490,8 @@ _ext_case = st.lists(_ext, max_size=6, unique_by=lambda t: t[0].upper()).map(lam
 
 
 def nontrivial(case):
+    if case['family'] == 'stall':
+        return True
     if case['family'] in ('ext',):
         return bool(case['exts'])
     envs = case['envelopes']
@@ -499,7 +501,80 @@ def nontrivial(case):
             bool(case.get('server', {}).get('drop')) or bool(case.get('server', {}).get('no_ehlo')))
 
 
-RUNNERS = {'smtp': run_smtp_case, 'http': run_http_case, 'lmtp': run_lmtp_case, 'ext': run_ext_case}
+class SlowReader(object):
+    """The edge's side of the connection: once the DATA command has been read, one recv() pauses (a busy server)."""
+
+    def __init__(self, sock, pause):
+        self._sock = sock
+        self._pause = pause
+        self._tail = b''
+        self._armed = False
+
+    def recv(self, n):
+        if self._armed:
+            self._armed = False
+            self._pause, pause = 0, self._pause
+            gevent.sleep(pause)
+        data = self._sock.recv(n)
+        if self._pause and b'DATA\r\n' in self._tail + data:
+            self._armed = True
+        self._tail = (self._tail + data)[-8:]
+        return data
+
+    def __getattr__(self, name):
+        return getattr(self._sock, name)
+
+
+def run_stall_case(case):
+    """A message larger than the socket buffers to an edge that stops reading for longer than the relay's data timeout. The
+    attempt may fail - but whatever the edge then accepts must still be the message that was handed to the relay."""
+    CfgServer.cfg = {'drop': [] if case['pipelining'] else ['PIPELINING'], 'no_ehlo': False, 'starttls': False, 'auth': None}
+    queue = VerdictQueue()
+    edge = SmtpEdge(None, queue, hostname='edge.example', validator_class=make_validators(), data_timeout=20.0, command_timeout=20.0)
+    conns = []
+
+    def creator(address):
+        a, b = gsocket.socketpair()
+        conns.append((a, b, gevent.spawn(edge.handle, SlowReader(b, case['pause']), ('192.0.2.7', 2525))))
+        return a
+    relay = StaticSmtpRelay('peer.example', 25, socket_creator=creator, context=client_ctx(), ehlo_as='relay.example',
+                            command_timeout=1.0, data_timeout=case['data_timeout'], idle_timeout=None)
+    env = Envelope('s@x.example', ['r@y.example'])
+    line = b'0123456789abcdefghijklmnopqrstuvwxyzABCDEFGHIJKLMNOPQRSTUVWXYZ %07d\r\n'
+    env.parse(b'Subject: large\r\n\r\n' + b''.join(line % i for i in range(case['lines'])))
+    before = env.flatten()
+    desc = repr(case)
+    out = []
+    try:
+        try:
+            with gevent.Timeout(20):
+                res, exc = result_of(lambda: relay.attempt(env, 0))
+        except gevent.Timeout:
+            return [('C06:hop-hangs:stalled-edge', desc)], True
+        gevent.joinall([g for _, _, g in conns], timeout=10)
+        for got in queue.envelopes:
+            flat = b''.join(got.flatten())
+            if flat != expected_content(before):
+                out.append(('C06:edge-accepted-altered-content', '%s: the relay reported %r; the edge accepted %d bytes for a message of '
+                            '%d bytes (first difference at byte %d)'
+                            % (desc, exc.reply if exc is not None else res, len(flat), len(expected_content(before)),
+                               next((i for i, (x, y) in enumerate(zip(flat, expected_content(before))) if x != y), min(len(flat), len(expected_content(before)))))))
+                break
+        if exc is None and len(queue.envelopes) != 1:
+            out.append(('C06:message-not-received', '%s: success reported, the edge queue holds %d envelopes' % (desc, len(queue.envelopes))))
+    finally:
+        for a, b, g in conns:
+            if not g.dead:
+                g.kill(block=False)
+            for s_ in (a, b):
+                try:
+                    s_.close()
+                except Exception:
+                    pass
+    return out, True
+
+
+RUNNERS = {'smtp': run_smtp_case, 'http': run_http_case, 'lmtp': run_lmtp_case, 'ext': run_ext_case, 'stall': run_stall_case}
 
 
 def run_shard(ctx):
@@ -515,6 +590,14 @@ def run_shard(ctx):
                                               'auth': None, 'short_command_timeout': True},
                  'envelopes': [{'sender': 's@x.example', 'rcpts': ['r%d@y.example' % i for i in range(1 + k % 3)],
                                 'block': (b'Subject: slow %d\r\nX-Queue-Delay: 1000\r\n' % k).hex(), 'body': b'body\r\n'.hex()}]})
+    # the edge stops reading in the middle of a large message, for longer / shorter than the relay's data timeout
+    k = 0
+    for lines in (20000, 60000):
+        for pipelining in (True, False):
+            for pause, data_timeout in ((0.5, 0.1), (0.3, 5.0)):
+                k += 1
+                if ctx.mine(k):
+                    one({'family': 'stall', 'lines': lines, 'pipelining': pipelining, 'pause': pause, 'data_timeout': data_timeout})
     hyp.drive(ctx, http_case(), one, ctx.n(200, 3000), salt=1)
     hyp.drive(ctx, lmtp_case(), one, ctx.n(300, 5000), salt=2)
     hyp.drive(ctx, _ext_case, one, ctx.n(300, 5000), salt=3)
@@ -525,6 +608,9 @@ def replay(case):
     if fam not in RUNNERS:
         return None            # not a case this check generates: cannot be replayed
     try:
+        if fam == 'stall':
+            return run_stall_case({'family': 'stall', 'lines': max(1, min(100000, int(case['lines']))), 'pipelining': bool(case['pipelining']),
+                                   'pause': min(2.0, float(case['pause'])), 'data_timeout': min(10.0, float(case['data_timeout']))})[0]
         if fam == 'ext':
             exts = [(str(n), (None if p is None else str(p))) for n, p in case['exts'] if re.match(r'^[a-zA-Z0-9][a-zA-Z0-9-]*$', str(n))]
             return run_ext_case({'family': 'ext', 'exts': exts})[0]
